@@ -123,6 +123,9 @@ def run_all ():
   expect('norm expands an attribute alias when nothing can re-bind it', 'self.handlers[m]' in out)
   out = normed("def make(ev):\n  def handler(con, parts):\n    con.raiseEvent(ev, parts[0])\n  return handler\nhandle_A = make(EventA)\n", {'<module>': []})
   expect('norm instantiates a simple function factory', 'def handle_A(con, parts)' in out and 'con.raiseEvent(EventA, parts[0])' in out)
+  inv5 = {'A._drop': ['self', 'x'], 'A.f': ['self'], 'B.g': ['self', 'o'], '<module>': [], '<class A>': [], '<class B>': []}
+  out = normed("class A:\n  def _drop(self, x):\n    self.items.remove(x)\n  def f(self):\n    return 1\nclass B:\n  def g(self, o):\n    o._drop(1)\n    self._drop(2)\n  def _drop(self, v):\n    self.q.pop(v)\n", inv5)
+  expect('norm resolves a new helper only on its own class (another object with an older method of that name is left alone)', 'o._drop(1)' in out and 'self.q.pop(2)' in out)
   # ---- evaluation along paths ----------------------------------------------------------------------------------
   class _M(object):
     name = 'm'; short = 'm'
